@@ -314,7 +314,7 @@ pub fn run_scenario(r: &mut Report, app: &mut dyn RunningApp, sc: &Scenario, sid
 ///
 /// `rounds` shortages follow one another (the server must serve again after each); with `signal_in_shortage` the signal is
 /// sent 200 ms into the last one, while `accept` is still failing: `run` returns promptly all the same - what earlier
-/// shortages did to the accept loop must not delay it (seeded C20-K). "Promptly" is 3 s here (the unchanged tree needs
+/// shortages did to the accept loop must not delay it (seeded C20-K). "Promptly" is 2 s here (the unchanged tree needs
 /// milliseconds); a machine that schedules threads late at that moment makes the round inconclusive, not violated.
 pub fn fd_exhaustion_scenario(r: &mut Report, app: &mut dyn RunningApp, rounds: usize, signal_in_shortage: bool, replay: &[String]) {
     #[repr(C)]
@@ -399,7 +399,7 @@ pub fn fd_exhaustion_scenario(r: &mut Report, app: &mut dyn RunningApp, rounds: 
             }
             match back {
                 None => r.violation(&format!("C20/run-did-not-return:{}", rt), format!("[{}] run() had not returned {:?} after a signal sent while the process was out of descriptors (shortage {} of {})", rt, waited, round + 1, rounds), ex, replay.to_vec()),
-                Some(d) if d > Duration::from_secs(3) => {
+                Some(d) if d > Duration::from_secs(2) => {
                     // three 20 ms sleeps: is the machine scheduling threads promptly right now?
                     let over = (0..3).map(|_| { let t = Instant::now(); std::thread::sleep(Duration::from_millis(20)); t.elapsed().as_millis().saturating_sub(20) as u64 }).max().unwrap_or(0);
                     if over > 200 {
